@@ -33,7 +33,7 @@ LISTS = ["_loads_min", "_loads_max", "_S_min", "_S_max", "_epsilon_min", "_epsil
 
 
 def run(ctx):
-    for r in (_r1, _r2, _r3, _r4, _r5, _r6):
+    for r in (_r1, _r2, _r3, _r4, _r5, _r6, _r7, _r8):
         ctx.attempt(r)
 
 
@@ -368,20 +368,32 @@ def _r6(ctx):
     inc = isinstance(t, ast.Compare) and isinstance(t.ops[0], ast.Lt) and norm_text(t.left) == "previous_load" and \
         "current_load_representative" in norm_text(t.comparators[0])
 
-    def side(block, attr, op):
+    def side(block, attr, op, fn):
         stores = [s for s in block if isinstance(s, ast.Assign) and is_self_attr(s.targets[0])]
         if len(stores) != 1 or stores[0].targets[0].attr != attr:
             return False, stores
-        sel = [s for s in block if isinstance(s, ast.Assign) and isinstance(s.value, ast.IfExp)]
-        if len(sel) != 1:
-            return False, stores
-        e = sel[0].value
-        ok = is_self_attr(e.body, attr) and norm_text(e.orelse) == "current_point.strain" and isinstance(e.test, ast.Compare) and \
-            isinstance(e.test.ops[0], op) and norm_text(e.test.left).startswith("self.%s" % attr) and \
-            norm_text(e.test.comparators[0]).startswith("current_point.strain")
+        srcs = [stores[0].value] + [s.value for s in block if isinstance(s, ast.Assign) and isinstance(s.targets[0], ast.Name)
+                                    and s.targets[0].id in names_in(stores[0].value)]
+        cur = None
+        for e in srcs:
+            for n in ast.walk(e):
+                # scalar form: old if old <op> current else current
+                if isinstance(n, ast.IfExp) and is_self_attr(n.body, attr) and isinstance(n.test, ast.Compare) and \
+                        isinstance(n.test.ops[0], op) and norm_text(n.test.left).startswith("self.%s" % attr) and \
+                        norm_text(n.test.comparators[0]).startswith(norm_text(n.orelse)) and \
+                        isinstance(n.orelse, ast.Attribute) and n.orelse.attr == "strain":
+                    cur = n.orelse
+                # element-wise form: np.maximum / np.minimum (old, current)
+                if isinstance(n, ast.Call) and call_name(n) == fn and len(n.args) == 2:
+                    olds = [a for a in n.args if any(is_self_attr(x, attr) for x in ast.walk(a))]
+                    curs = [x for a in n.args if a not in olds for x in ast.walk(a) if isinstance(x, ast.Attribute) and x.attr == "strain"]
+                    if len(olds) == 1 and len(curs) == 1:
+                        cur = curs[0]
+        pt = [q for q in f.params if "point" in q]
+        ok = cur is not None and isinstance(cur.value, ast.Name) and cur.value.id in f.params
         return ok, stores
-    ok1, s1 = side(b.body, "_epsilon_max_LF", ast.Gt)
-    ok2, s2 = side(b.orelse, "_epsilon_min_LF", ast.Lt)
+    ok1, s1 = side(b.body, "_epsilon_max_LF", ast.Gt, "np.maximum")
+    ok2, s2 = side(b.orelse, "_epsilon_min_LF", ast.Lt, "np.minimum")
     if inc and ok1:
         ctx.holds(f, s1[0], "load increases: eps_max_LF = max(eps_max_LF, current strain)")
     else:
@@ -392,6 +404,199 @@ def _r6(ctx):
         ctx.violated(f, b, "on a load decrease the running strain minimum is not min(old, current strain)", text="min side")
 
 
+def _r7(ctx):
+    """Visited strain values: one list, split at a counter.  The counter must count exactly the appends made during pass 1:
+    every append is followed by `if self._run_index == 1: counter += 1`, the counter changes nowhere else, and the two
+    accessors return the slices [:counter] and [counter:] of the same list."""
+    prog = ctx.prog
+    ctx.rule("R-C05-7", floor=6, what="visited strains: every append is paired with a pass-1-guarded counter increment; accessors slice at the counter")
+    ci = prog.cls(D[:-1])
+
+    def slice_parts(meth):
+        f = prog.lookup_method(ci, meth)
+        r = [s_ for s_ in walk_stmts(f.node.body) if isinstance(s_, ast.Return)]
+        if len(r) != 1:
+            raise AnalysisError("%s: single return expected" % meth)
+        sub = [n for n in ast.walk(r[0].value) if isinstance(n, ast.Subscript) and isinstance(n.slice, ast.Slice)]
+        if len(sub) != 1 or not is_self_attr(sub[0].value):
+            raise AnalysisError("%s: slice of a self attribute expected" % meth)
+        sl = sub[0].slice
+        return f, r[0], sub[0].value.attr, sl.lower, sl.upper
+    f1, r1, l1, lo1, up1 = slice_parts("strain_values_first_run")
+    f2, r2, l2, lo2, up2 = slice_parts("strain_values_second_run")
+    if l1 == l2 and lo1 is None and is_self_attr(up1) and up2 is None and is_self_attr(lo2) and up1.attr == lo2.attr:
+        ctx.holds(f1, r1, "first run = %s[:%s], second run = %s[%s:]: a partition of one list" % (l1, up1.attr, l2, lo2.attr))
+    else:
+        ctx.violated(f1, r1, "the accessors for the strains of pass 1 and pass 2 do not partition one list at one counter")
+        return
+    lst, cnt = l1, up1.attr
+    appends, incs, other = [], [], []
+    for name, fs in ci.methods.items():
+        for f in fs[-1:]:
+            if f.name == "__init__":
+                continue
+            for st in walk_stmts(f.node.body):
+                if isinstance(st, ast.Expr) and isinstance(st.value, ast.Call) and isinstance(st.value.func, ast.Attribute) and \
+                        is_self_attr(st.value.func.value, lst):
+                    (appends if st.value.func.attr == "append" else other).append((f, st))
+                elif isinstance(st, ast.AugAssign) and is_self_attr(st.target, cnt):
+                    incs.append((f, st))
+                elif isinstance(st, ast.Assign) and any(is_self_attr(t, cnt) or is_self_attr(t, lst) for t in st.targets):
+                    other.append((f, st))
+    for f, st in other:
+        ctx.violated(f, st, "%s / %s is modified outside the append + guarded-increment protocol" % (lst, cnt), text=norm_text(st))
+
+    def guarded(st):
+        p = getattr(st, "_parent", None)
+        if not (isinstance(p, ast.If) and not p.orelse and len(p.body) == 1 and p.body[0] is st):
+            return None
+        t = p.test
+        if isinstance(t, ast.Compare) and len(t.ops) == 1 and isinstance(t.ops[0], ast.Eq):
+            a, b = t.left, t.comparators[0]
+            if (is_self_attr(a, "_run_index") and const_value(b) == 1) or (is_self_attr(b, "_run_index") and const_value(a) == 1):
+                if isinstance(st.op, ast.Add) and const_value(st.value) == 1:
+                    return p
+        return None
+    paired = set()
+    for f, st in appends:
+        blk = None
+        par = st._parent
+        for field in ("body", "orelse", "finalbody"):
+            b = getattr(par, field, None)
+            if isinstance(b, list) and any(x is st for x in b):
+                blk = b
+        i = next(k for k, x in enumerate(blk) if x is st)
+        nxt = next((x for x in blk[i + 1:] if isinstance(x, ast.If) and any(g is x for g in
+                    [guarded(q) for _, q in incs if guarded(q) is not None])), None)
+        between = blk[i + 1: blk.index(nxt)] if nxt is not None else []
+        if nxt is not None and not any(isinstance(x, (ast.Return, ast.Raise, ast.Continue, ast.Break)) for x in between) and \
+                id(nxt) not in paired:
+            paired.add(id(nxt))
+            ctx.holds(f, st, "%s: append to %s followed by `if self._run_index == 1: %s += 1`" % (f.name, lst, cnt))
+        else:
+            ctx.violated(f, st, "%s: a strain value is appended to %s without the pass-1-guarded increment of %s right after it: "
+                         "the split between the strains of pass 1 and pass 2 is shifted" % (f.name, lst, cnt), text="append " + f.name)
+    for f, st in incs:
+        g = guarded(st)
+        if g is None or id(g) not in paired:
+            ctx.violated(f, st, "%s: %s is incremented without the guard `self._run_index == 1` (or without a matching append): "
+                         "strains visited in a later pass are counted as pass-1 values" % (f.name, cnt), text="increment " + f.name)
+
+
+def _elem0(e):
+    """X for X.values[0] / X.iloc[0] / X[0]; None otherwise"""
+    if isinstance(e, ast.Subscript) and const_value(e.slice) == 0 and not isinstance(const_value(e.slice), bool):
+        v = e.value
+        if isinstance(v, ast.Attribute) and v.attr in ("values", "iloc", "iat"):
+            return v.value
+        return v
+    return None
+
+
+def _r8(ctx):
+    """Several assessment points: a decision taken on the first point and applied to all points is sound only if the
+    compared quantities are ordered alike at every point.  Loads are (proportional histories, positive factors).  Stresses
+    and strains are nonlinear in the factor, so they are ordered alike only for the two end points of one closed branch
+    (monotone branch: the lower load end has the lower stress and strain at every point).  Any other first-point
+    comparison of stresses or strains - e.g. a running extreme against the current strain - is a violation; such
+    selections have to be element-wise."""
+    prog = ctx.prog
+    ctx.rule("R-C05-8", floor=6, what="first-point decisions compare loads, or the same field of the two ends of one closed branch")
+    ci = prog.cls(D[:-1])
+    # per-point attributes of kind stress/strain: assigned (transitively) from .strain / .stress of a point
+    ekind = set()
+    changed = True
+    stores = []
+    for name, fs in ci.methods.items():
+        f = fs[-1]
+        for st in walk_stmts(f.node.body):
+            if isinstance(st, ast.Assign):
+                for t in st.targets:
+                    if is_self_attr(t):
+                        stores.append((t.attr, st.value, f))
+    def kind(e, f=None, depth=0):
+        ks = set()
+        for n in ast.walk(e):
+            if isinstance(n, ast.Attribute):
+                if n.attr in ("strain", "stress"):
+                    ks.add("E")
+                elif n.attr in ("load", "load_representative"):
+                    ks.add("L")
+                elif is_self_attr(n) and n.attr in ekind:
+                    ks.add("E")
+            elif isinstance(n, ast.Name) and ("index" in n.id or "indices" in n.id):
+                ks.add("I")
+            elif isinstance(n, ast.Name) and "load" in n.id and "point" not in n.id:
+                ks.add("L")
+            elif isinstance(n, ast.Name) and f is not None and depth < 3:
+                for st in walk_stmts(f.node.body):
+                    if isinstance(st, ast.Assign) and any(isinstance(t, ast.Name) and t.id == n.id for t in st.targets):
+                        if not any(isinstance(x, ast.Name) and x.id == n.id for x in ast.walk(st.value)):
+                            ks |= kind(st.value, f, depth + 1)
+        return ks
+    while changed:
+        changed = False
+        for a, v, f in stores:
+            if a not in ekind and "E" in kind(v, f):
+                ekind.add(a)
+                changed = True
+    # parameters that always receive the two topmost residuals (the ends of the closing branch)
+    def branch_end_params(f):
+        ps = {}
+        for g in [fs[-1] for fs in ci.methods.values()]:
+            for c in calls_in(g.node):
+                if isinstance(c.func, ast.Attribute) and is_self_attr(c.func) and c.func.attr == f.name:
+                    for k in c.keywords:
+                        src = k.value
+                        if isinstance(src, ast.Name):
+                            d = [st.value for st in walk_stmts(g.node.body) if isinstance(st, ast.Assign) and
+                                 any(isinstance(t, ast.Name) and t.id == src.id for t in st.targets)]
+                            src = d[0] if len(d) == 1 else src
+                        slot = None
+                        if isinstance(src, ast.Subscript) and is_self_attr(src.value, "_residuals"):
+                            slot = const_value(src.slice)
+                        ps.setdefault(k.arg, set()).add(slot)
+        return {p_: next(iter(v)) for p_, v in ps.items() if len(v) == 1 and next(iter(v)) in (-1, -2)}
+    n_ok = 0
+    for name, fs in ci.methods.items():
+        f = fs[-1]
+        ends = None
+        for n in ast.walk(f.node):
+            if not isinstance(n, (ast.If, ast.While, ast.IfExp)):
+                continue
+            for c in ast.walk(n.test):
+                if not (isinstance(c, ast.Compare) and len(c.ops) == 1):
+                    continue
+                l, r = _elem0(c.left), _elem0(c.comparators[0])
+                if l is None and r is None:
+                    continue
+                kl = kind(l if l is not None else c.left, f)
+                kr = kind(r if r is not None else c.comparators[0], f)
+                ks = kl | kr
+                if "E" not in ks:
+                    if "I" in ks:
+                        n_ok += 1
+                        ctx.holds(f, n, "%s: first-point decision %s compares sample positions (shared by all points)" % (f.name, norm_text(c)))
+                    elif "L" in ks:
+                        n_ok += 1
+                        ctx.holds(f, n, "%s: first-point decision %s compares loads (ordered alike at all points)" % (f.name, norm_text(c)))
+                    continue
+                if ends is None:
+                    ends = branch_end_params(f)
+                same_field = isinstance(l, ast.Attribute) and isinstance(r, ast.Attribute) and l.attr == r.attr and \
+                    isinstance(l.value, ast.Name) and isinstance(r.value, ast.Name) and \
+                    {ends.get(l.value.id), ends.get(r.value.id)} == {-1, -2}
+                if same_field:
+                    n_ok += 1
+                    ctx.holds(f, n, "%s: first-point decision %s compares the %s of the two ends of the closing branch "
+                              "(monotone branch: same order at every point)" % (f.name, norm_text(c), l.attr))
+                else:
+                    ctx.violated(f, n, "%s: %s decides on the first assessment point only, but compares stresses/strains that "
+                                 "are not the two ends of one branch; with several assessment points the other points can be "
+                                 "ordered differently (nonlinear law), so they get values they would not get when processed "
+                                 "alone. Select element-wise (np.maximum / np.minimum / np.where)" % (f.name, norm_text(c)),
+                                 text=norm_text(c))
+
 # =========================================================================== variants
 
 FN = "src/pylife/stress/rainflow/fkm_nonlinear.py"
@@ -401,6 +606,59 @@ C = "FKMNonlinearDetector."
 
 def variants():
     out = []
+
+    def first_point_extreme(tree):
+        f = find_func(tree, C + "_hcm_update_min_max_strain_values")
+        br = [x for x in f.body if isinstance(x, ast.If)][0]
+        br.body = [parse_stmt("self._epsilon_max_LF = self._epsilon_max_LF if self._epsilon_max_LF.values[0] > "
+                              "current_point.strain.values[0] else current_point.strain")]
+        return True
+    out.append(witness("running strain maximum decided on the first assessment point", FN, first_point_extreme, "R-C05-8"))
+
+    def first_point_where(tree):
+        f = find_func(tree, C + "_handle_case_c_ii")
+        for n in ast.walk(f):
+            if isinstance(n, ast.IfExp) and "strain" in ast.unparse(n.test):
+                n.test = parse_expr("previous_point_0.strain.values[0] < self._epsilon_min_LF.values[0]")
+                return True
+        return False
+    out.append(witness("hysteresis strain minimum decided against the running minimum of the first point", FN, first_point_where, "R-C05-8"))
+
+    def extremes_swapped_args(tree):
+        f = find_func(tree, C + "_hcm_update_min_max_strain_values")
+        n = 0
+        for c in ast.walk(f):
+            if isinstance(c, ast.Call) and call_name(c) in ("np.maximum", "np.minimum") and len(c.args) == 2:
+                c.args = [c.args[1], c.args[0]]
+                n += 1
+        return n == 2
+    out.append(twin("np.maximum/np.minimum arguments swapped", FN, extremes_swapped_args))
+
+    def drop_guard(tree):
+        f = find_func(tree, C + "_handle_case_a_i")
+        for n in ast.walk(f):
+            if isinstance(n, ast.If) and "_run_index" in ast.unparse(n.test) and len(n.body) == 1 and isinstance(n.body[0], ast.AugAssign):
+                return replace_node(n, n.body[0])
+        return False
+    out.append(witness("Memory-3 handler counts its strain value in every pass", FN, drop_guard, "R-C05-7"))
+
+    def guard_ge(tree):
+        f = find_func(tree, C + "_handle_case_b")
+        for n in ast.walk(f):
+            if isinstance(n, ast.If) and "_run_index" in ast.unparse(n.test) and len(n.body) == 1 and isinstance(n.body[0], ast.AugAssign):
+                n.test = parse_expr("self._run_index >= 1")
+                return True
+        return False
+    out.append(witness("case b counts under run_index >= 1", FN, guard_ge, "R-C05-7"))
+
+    def guard_flipped(tree):
+        f = find_func(tree, C + "_handle_case_b")
+        for n in ast.walk(f):
+            if isinstance(n, ast.If) and "_run_index" in ast.unparse(n.test) and len(n.body) == 1 and isinstance(n.body[0], ast.AugAssign):
+                n.test = parse_expr("1 == self._run_index")
+                return True
+        return False
+    out.append(twin("guard written 1 == self._run_index", FN, guard_flipped))
 
     def aii_primary(tree):
         f = find_func(tree, C + "_handle_case_a_ii")
@@ -524,9 +782,11 @@ def variants():
     def ext_cmp(tree):
         f = find_func(tree, C + "_hcm_update_min_max_strain_values")
         b = [s for s in f.body if isinstance(s, ast.If)][0]
-        sel = [s for s in b.orelse if isinstance(s, ast.Assign) and isinstance(s.value, ast.IfExp)][0]
-        sel.value.test.ops = [ast.Gt()]
-        return True
+        for c in ast.walk(ast.Module(body=b.orelse, type_ignores=[])):
+            if isinstance(c, ast.Call) and call_name(c) == "np.minimum":
+                c.func = parse_expr("np.maximum")
+                return True
+        return False
     out.append(witness("running minimum keeps the larger value", FN, ext_cmp, "R-C05-6"))
 
     # twins
